@@ -876,9 +876,9 @@ def part_scripts(ctx, M, H):
     rng = ctx.rng
     modes = ["model", "model+value", "value", "assignment", "core", "fullcore", "itp", "dump"]
     profiles = ["good"] * 6 + ["bad-name", "sort-name", "label-name", "clash", "clash"]
-    n = 140 if ctx.quick else 2500
+    n = 72 if ctx.quick else 2500
     for it in range(n):
-        mode = modes[it % len(modes)] if it < 4 * len(modes) else rng.choice(modes)
+        mode = modes[it % len(modes)] if it < 6 * len(modes) else rng.choice(modes)
         profile = rng.choice(profiles)
         try:
             c = gen_case(rng, M, mode, profile)
@@ -1103,6 +1103,21 @@ def check_assignment_dead(ctx, M, c, frames, concrete, out):
                   "a missing variadic argument is read, standard output goes bad and every later answer is lost: output ends with %r" % (labels, out[-60:]), replay)
 
 
+def z3_batch(c, sig_decls, queries):
+    """one z3 process for several satisfiability questions (each a list of plain formulas): list of 'sat'|'unsat'|'unknown'"""
+    lines = ["(set-logic %s)" % c.logic] + sig_decls
+    for q in queries:
+        lines.append("(push 1)")
+        lines += ["(assert %s)" % smtlib.sx_str(f) for f in q]
+        lines += ["(check-sat)", "(pop 1)"]
+    rc, out = run_ref("z3", "\n".join(lines) + "\n", timeout=30)
+    res = [l.strip() for l in out.split("\n") if l.strip() in ("sat", "unsat", "unknown")]
+    errs = "error" in out.lower()
+    if errs or len(res) != len(queries):
+        return ["unknown"] * len(queries)
+    return res
+
+
 # ---- unsat cores
 def z3_equiv(c, sig_decls, a, b):
     """plain formulas a, b equivalent? (z3, untrusted: used to find a failing case, a 'no' is reported as violation with both texts)"""
@@ -1171,7 +1186,7 @@ def check_core(ctx, M, c, seg, frames, sig, concrete, out):
             else:
                 ctx.violation(classify(M, c, "full-core", seg), "the full unsat core mentions %s" % ex, replay)
             return
-        verdicts = [z3_equiv(c, decls, pt, a) for a in asserts]
+        verdicts = z3_batch(c, decls, [[["distinct", pt, a]] for a in asserts])
         if "unsat" not in verdicts:
             if all(v == "sat" for v in verdicts):
                 ctx.violation(classify(M, c, "full-core", seg, "reads-back-different"), "a term of the full unsat core, read back, is equivalent to none of the assertions: %s" % smtlib.sx_str(pt)[:300], replay)
@@ -1218,8 +1233,7 @@ def check_itp(ctx, M, c, seg, frames, sig, concrete, out):
         lines = ["(set-logic %s)" % c.logic] + decls + ["(assert %s)" % smtlib.sx_str(f) for f in fs] + ["(check-sat)"]
         rc, o = run_ref("z3", "\n".join(lines) + "\n", timeout=20)
         return o.strip().split("\n")[0] if o.strip() else "unknown"
-    v1 = unsat([a, ["not", itp]])
-    v2 = unsat([itp, b])
+    v1, v2 = z3_batch(c, decls, [[a, ["not", itp]], [itp, b]])
     if v1 == "unsat" and v2 == "unsat":
         ctx.count("interpolant:reads-back-valid")
         sample("script:itp", dict(case="interpolant over adversarial names", script=concrete, printed=seg, is_interpolant_after_reading=True))
